@@ -12,6 +12,15 @@
           25 = C14_spike_depths   spikes.depths
           26 = C14_durations      clusters.peakToTrough
           27 = C14_rawind         channels.rawInd = each probe's original channel map
+          28 = C14_C08_cluster_waveform (stage 5)  the cluster waveforms the exporter reads (sparse_clusters.data of
+               the loaded model, the source of clusters.waveforms / channels / depths / peakToTrough / amps) are what
+               C08's model of _load_data's branch (PV.C08.Model.load: merge_map, get_cluster_mean_waveforms,
+               cluster_waveforms) computes from the loaded templates, spike_templates, spike_clusters, channel
+               positions and channel_shanks: the template itself for a one-template cluster, zeros for an empty id,
+               the spike-count weighted mean on the channels of the dominant template otherwise (LinkC08.v:
+               C14_C08_cluster_waveform); n_clusters and nan_idx likewise.  Judged when n_closest_channels = 12 and
+               every mean is an integer (the regime of C14's exact model, LinkC08.int_data); InAlfL carries
+               channel_shanks.
           3  = input outside the stated regime (harness bug)
    InAlfBig: a dataset of n spikes, n above the batch size 50000 of get_depths, that repeats the k spikes
    of [x] (templates, amplitudes, feature rows) periodically; [x] is the loaded model restricted to its first
@@ -22,6 +31,7 @@
    C14_amp_units the exported value of spike j depends only on the template, amplitude and feature row of
    spike j.  Every other file is judged as for InAlf. *)
 From Coq Require Import ZArith QArith Qabs List Bool.
+From PV Require Import C08.Model.      (* used qualified (M8.); the names of C09 / C14 imported below take precedence *)
 From PV Require Export Base.Tok Base.TokArith C09.Model C09.Spec C14.Model C14.Spec.
 Import ListNotations.
 Open Scope Z_scope.
@@ -66,6 +76,7 @@ Record alf_obs := mk_alf_obs {
 Inductive input :=
 | InAlf (x : alf_in) (factor rate : tok) (orig : option (list (list Z))) (nan : list Z)
 | InAlfBig (x : alf_in) (factor rate : tok) (nan : list Z) (n : Z)
+| InAlfL (x : alf_in) (factor rate : tok) (orig : option (list (list Z))) (nan : list Z) (shanks : list Z)
 | InBad.
 Inductive observed := ObsAlf (o : alf_obs) | ObsCrash.
 Record case := { cid : Z; cin : input; cobs : observed }.
@@ -130,8 +141,30 @@ Definition per_spike (big : option Z) {A B} (f : A -> B -> bool) (m : list A) (o
   | Some n => (Z.of_nat (length o) =? n) && cyc f m m o
   end.
 
+(* ---------- stage 5: the loaded cluster waveforms against C08's model of the branch of _load_data ---------- *)
+Module M8 := PV.C08.Model.
+(* the exact quotient of np.average's one division when it is an integer (= LinkC08.int_cell / int_data) *)
+Definition q_cell (r : M8.rat) : option Z :=
+  if M8.rd r =? 0 then None
+  else if (M8.rn r) mod (M8.rd r) =? 0 then Some (M8.rn r / M8.rd r) else None.
+Definition q_data (l : list (list (list M8.rat))) : option (list mat) := omap (omap (omap q_cell)) l.
+Definition c08_dset (x : alf_in) (shanks : list Z) : M8.dset :=
+  M8.mkds (x_st x) (x_sc x) (x_tdata x) (map (fun p => nth 0 p 0) (x_pos x)) (map (fun p => nth 1 p 0) (x_pos x))
+          shanks (x_wmi x).
+(* None: outside the regime of the link (another n_closest_channels, a non-integer mean) *)
+Definition loaded_ok (x : alf_in) (shanks nan : list Z) : option bool :=
+  if negb ((x_nclosest x =? M8.n_closest_channels) && Nat.eqb (length shanks) (length (x_pos x))) then None else
+  match M8.load (c08_dset x shanks) with
+  | None => Some false
+  | Some L =>
+      match q_data (M8.l_data L) with
+      | None => None
+      | Some cd => Some (all2b (all2b (all2b Z.eqb)) cd (x_cdata x) && (M8.l_ncl L =? x_ncl x) && zl_eq (M8.l_nan L) nan)
+      end
+  end.
+
 Definition check_alf (big : option Z) (x : alf_in) (factor rate : tok) (orig : option (list (list Z))) (nan : list Z)
-                     (o : alf_obs) : list Z :=
+                     (shanks : option (list Z)) (o : alf_obs) : list Z :=
       if negb (regime x factor rate) then [3] else
       let nc := length (x_wmi x) in
       match export_with (map (row_nat nc) (o_tchan o)) (map (row_nat nc) (o_cchan o)) x (tok_Q factor) (tok_Q rate) with
@@ -150,8 +183,13 @@ Definition check_alf (big : option Z) (x : alf_in) (factor rate : tok) (orig : o
                      | None => if all_equal (x_probes x) then zl_eq (o_rawind o) (x_cmap x) else true
                      end in
           let g1 := zl_eq (y_rawind y) (o_rawind o) && zl_eq (model_nan_idx (x_ncl x) (x_st x) (x_sc x)) nan in
-          flag 1 (g1 && g21 && g23 && g24 && g25 && g26) ++
-          flag 21 g21 ++ flag 22 g22 ++ flag 23 g23 ++ flag 24 g24 ++ flag 25 g25 ++ flag 26 g26 ++ flag 27 g27
+          let g28 := match shanks with
+                     | None => true
+                     | Some sh => match loaded_ok x sh nan with Some b => b | None => true end
+                     end in
+          flag 1 (g1 && g21 && g23 && g24 && g25 && g26 && g28) ++
+          flag 21 g21 ++ flag 22 g22 ++ flag 23 g23 ++ flag 24 g24 ++ flag 25 g25 ++ flag 26 g26 ++ flag 27 g27 ++
+          flag 28 g28
       end.
 
 Definition check (c : case) : list Z :=
@@ -159,10 +197,12 @@ Definition check (c : case) : list Z :=
   | InBad, _ => [1; 20]
   | InAlf _ _ _ _ _, ObsCrash => [1; 20]
   | InAlfBig _ _ _ _ _, ObsCrash => [1; 20]
-  | InAlf x factor rate orig nan, ObsAlf o => check_alf None x factor rate orig nan o
+  | InAlfL _ _ _ _ _ _, ObsCrash => [1; 20]
+  | InAlf x factor rate orig nan, ObsAlf o => check_alf None x factor rate orig nan None o
+  | InAlfL x factor rate orig nan shanks, ObsAlf o => check_alf None x factor rate orig nan (Some shanks) o
   | InAlfBig x factor rate nan n, ObsAlf o =>
       (* one full period at least, and the period itself inside C09's exact regime (k < 50000 <= n) *)
-      if negb ((1 <=? x_nspikes x) && (NBATCH <=? n)) then [3] else check_alf (Some n) x factor rate None nan o
+      if negb ((1 <=? x_nspikes x) && (NBATCH <=? n)) then [3] else check_alf (Some n) x factor rate None nan None o
   end.
 
 Definition dedupZ (l : list Z) : list Z :=
